@@ -116,6 +116,14 @@ func symKeyF(v ssa.Value, fr *symFrame, depth int) string {
 		return k(x.X) + "[" + lo + ":" + hi + "]"
 	case *ssa.Call:
 		return symCallKey(&x.Call, fr, depth+1)
+	case *ssa.MakeSlice:
+		return "make(" + types.TypeString(x.Type(), func(*types.Package) string { return "" }) + "," + k(x.Len) + ")"
+	case *ssa.MakeMap:
+		return "make(" + types.TypeString(x.Type(), func(*types.Package) string { return "" }) + ")"
+	case *ssa.Range:
+		return "range(" + k(x.X) + ")"
+	case *ssa.Next:
+		return "next(" + k(x.Iter) + ")"
 	case *ssa.Phi:
 		if x.Comment != "" {
 			return "phi:" + x.Comment
